@@ -142,6 +142,16 @@ Definition run_scan_gen (mems : list (list Lsm.Model.entry)) (v : version) (t : 
 Definition run_scan (s : store) (lo hi : bound) (prog : list op) : list obs :=
   run_scan_gen [mem s] (ver s) (seq s) lo hi prog.
 
+(* The one reachable snapshot OUTSIDE the theorems.  The memtable thread ingests the flushed sst
+   into the tree (`self.tree._ingest(..)`) and only afterwards takes the store lock to clear `imm`
+   (lsmtk/src/kvs/mod.rs, memtable_thread).  A range_scan whose snapshot falls into that window
+   holds the new (possibly empty) memtable, the immutable memtable AND a version that already
+   contains the immutable memtable's sst: every one of its (key, timestamp) pairs is under the
+   store's MergingCursor twice.  This is that snapshot for a store s whose memtable is being
+   flushed, with nothing written since the rollover. *)
+Definition run_scan_dup (s : store) (lo hi : bound) (prog : list op) : list obs :=
+  run_scan_gen [[]; mem s] (ver (flush s 0%N 0%N)) (seq s) lo hi prog.
+
 (* ---- LsmTree::range_scan: the tree alone, read at u64::MAX ---- *)
 Definition tree_scan_expr (v : version) (lo hi : bound) : expr :=
   EBounds lo hi (EPrune U64_MAX (version_expr v lo hi)).
